@@ -111,6 +111,11 @@ pub fn exec_bitflip(case: &[i64]) -> Outcome {
     if detached { for i in 0..signed_form.len() { for bit in 0..8 { let mut d = signed_form.clone(); d[i] ^= 1 << bit; if verify(&tok, Some(&d)) { accepted += 1; first.get_or_insert((10000 + i, bit)); } } } }
     // padding appended to a segment is a change of the bytes received, too
     for seg in 0..3 { for pad in ["=", "==", " "] { let mut parts: Vec<Vec<u8>> = tok.split(|b| *b == b'.').map(|p| p.to_vec()).collect(); parts[seg].extend(pad.bytes()); if verify(&parts.join(&b'.'), det_ref) { accepted += 1; first.get_or_insert((20000 + seg, 0)); } } }
+    // the signature segment re-encoded with bytes added or removed: 64 bytes exactly are an Ed25519 signature
+    { let parts: Vec<Vec<u8>> = tok.split(|b| *b == b'.').map(|p| p.to_vec()).collect();
+      if let Ok(sig) = identity_jose::jwu::decode_b64(&parts[2]) {
+        for (k, m) in [[sig.clone(), vec![0]].concat(), [sig.clone(), vec![0xff; 3]].concat(), [sig.clone(), sig.clone()].concat(), sig[..sig.len() - 1].to_vec(), [vec![0], sig.clone()].concat()].into_iter().enumerate() {
+          let t = [parts[0].clone(), parts[1].clone(), encode_b64(&m).into_bytes()].join(&b'.'); if verify(&t, det_ref) { accepted += 1; first.get_or_insert((30000 + k, 0)); } } } }
     if accepted > 0 { o = o.fail(&format!("{} mutated tokens still verify, first at byte {} bit {}", accepted, first.unwrap().0, first.unwrap().1)); }
     o
   })
